@@ -14,6 +14,7 @@ class SGen:
         self.n_sid = 0
         self.n_fn = 0
         self.n_sched = 0
+        self.no_erase = 0
 
     def sid(self):
         self.n_sid += 1
@@ -32,15 +33,23 @@ class SGen:
         if depth <= 0 or r.random() < 0.2:
             return {"s": "probe", "sid": self.sid()}
         k = r.choice(["transform", "transform", "filter", "filter", "via_stream", "type_erase", "take_until",
-                      "take_until"])
+                      "take_until", "stop_immediately", "stop_immediately"])
         if k == "transform":
             return {"s": "transform", "src": self.stream(depth - 1), "fn": self.fn()}
         if k == "filter":
             return {"s": "filter", "src": self.stream(depth - 1), "fn": self.fn(), "mask": r.randrange(1, 1 << 16)}
         if k == "via_stream":
             return {"s": "via_stream", "src": self.stream(depth - 1), "sched": self.sched()}
+        if k == "type_erase" and self.no_erase:
+            k = "transform"   # type_erase needs get_scheduler from its receiver; stop_immediately's does not answer it
+            return {"s": "transform", "src": self.stream(depth - 1), "fn": self.fn()}
         if k == "type_erase":
             return {"s": "type_erase", "src": self.stream(depth - 1)}
+        if k == "stop_immediately":
+            self.no_erase += 1
+            src = self.stream(depth - 1)
+            self.no_erase -= 1
+            return {"s": "stop_immediately", "src": src}
         return {"s": "take_until", "src": self.stream(depth - 1), "trig": {"s": "probe", "sid": self.sid()}}
 
     def program(self):
